@@ -157,6 +157,7 @@ pub mod vault_ex {
         let sby = addr_below(NA as u32);
         kani::assume(sby != owner);
         let al = declare_allowance(&owner, &operator);
+        let pre_rev = crate::vault::declare_reverse_allowance(&owner, &operator);
         let pre_al_slot = model::slot(S_ALLOW);
         let assets = amount();
         let a_recv0 = tok_balance(&receiver);
@@ -174,7 +175,8 @@ pub mod vault_ex {
         witness!(assets > 0 && shares > 0 && operator == owner && receiver != owner, "withdraw.own_shares_to_someone_else");
         witness!(assets > 1 && shares > 1 && shares != assets, "withdraw.skewed_rate");
         witness!(operator != owner && shares > 0 && allowance_worth_now() > 0, "withdraw.partial_allowance_spend");
-        end_checks(DECLARED);
+        prop!(model::slots_equal(&model::slot(crate::vault::S_ALLOW_REV), &pre_rev), "C02.vault_example.withdraw.reverse_allowance_untouched");
+        end_checks(DECLARED + 1);
     }
 
     #[kani::proof]
@@ -193,6 +195,7 @@ pub mod vault_ex {
         let sby = addr_below(NA as u32);
         kani::assume(sby != owner);
         let al = declare_allowance(&owner, &operator);
+        let pre_rev = crate::vault::declare_reverse_allowance(&owner, &operator);
         let pre_al_slot = model::slot(S_ALLOW);
         let shares = amount();
         let a_recv0 = tok_balance(&receiver);
@@ -210,7 +213,8 @@ pub mod vault_ex {
         witness!(assets > 0 && shares > 0 && operator == owner && receiver != owner, "redeem.own_shares_to_someone_else");
         witness!(assets > 1 && shares > 1 && shares != assets, "redeem.skewed_rate");
         witness!(shares > 0 && shares == bal_pre(&p.sh, &owner), "redeem.everything");
-        end_checks(DECLARED);
+        prop!(model::slots_equal(&model::slot(crate::vault::S_ALLOW_REV), &pre_rev), "C02.vault_example.redeem.reverse_allowance_untouched");
+        end_checks(DECLARED + 1);
     }
 
     /// every read-only entry point answers what the library `Vault::*` function answers in the same state
